@@ -238,6 +238,8 @@ C16 == /\ \A p \in Pairs : LET a == Ob(p[1])  b == Ob(p[2]) IN
             => Agree(a, b) /\ ExportsAgree(a, b)
        /\ KsFunctional
        /\ last.ev = "clone" => last.res = "ok"
+       \* a clone also reports and limits like the original would have (its machine state is a copy)
+       /\ PosOk /\ RemainingExact /\ LimitOk
 
 (* C17  no leak through Debug / algorithm name / dropped memory *)
 DebugConst == last.ev = "debug" => last.outOk /\ last.res = "ok"
